@@ -23,6 +23,8 @@ func init() {
 			{ID: "C13.a", Template: "T-TYPESTATE", Required: true,
 				Doc: "Every object acquired from the CompressorProvider by framework code is released exactly once: a local owner registers `defer Release(x)` directly after acquiring; the field owner (CompressingResponseWriter.compressor) is stored only from an acquire result, released only by the closing function, after compressor.Close(), behind the nil guard that refuses a second Close, and the field is set to nil on every path after the release with no use in between; every other use of the field is behind the nil guard. Breaking any link releases an object twice (two responses share one compressor), never, or uses it after release.",
 				Run: ruleC13a},
+			{ID: "C13.e", Template: "T-DEFER", Required: true, Run: ruleC07e,
+				Doc: "Every response encoder installed by the framework is closed by a defer registered before the install (same obligation as C07.e): Close is the only place the acquired compressor is released, so an install without it loses the object on some exit."},
 			{ID: "C13.b", Template: "T-ORDER", Required: true,
 				Doc: "Between an Acquire* and the first use of the acquired object there is a Reset onto this request's target: what the previous user left in a pooled object can then not reach this request (also the history clause of C16).",
 				Run: ruleC13b},
